@@ -71,7 +71,7 @@ static inline int judge(uint32_t bits,int word,int sgned,int be,const unsigned c
   t->bad++; if(k==1)t->bad1++; else t->bad2++;
   if(t->envelope){ int q; for(q=0;q<t->nruns;q++){ badrun *r=&t->runs[q]; if(r->kind==k&&r->got==v&&((r->lo^bits)>>31)==0){ if(bits<r->lo)r->lo=bits; if(bits>r->hi)r->hi=bits; return k; } } }
   else if(t->nruns>0){ badrun *r=&t->runs[t->nruns-1]; if(r->kind==k&&r->got==v&&bits==r->hi+1){ r->hi=bits; return k; } }
-  if(t->nruns<MAXRUNS){ badrun *r=&t->runs[t->nruns++]; r->lo=r->hi=bits; r->kind=k; r->got=v; r->elo=elo; r->ehi=ehi; }
+  if(t->nruns<(k==1?MAXRUNS:MAXRUNS-8)){ badrun *r=&t->runs[t->nruns++];   /* the last 8 slots are kept for kind-1 runs */ r->lo=r->hi=bits; r->kind=k; r->got=v; r->elo=elo; r->ehi=ehi; }
   else t->runs_overflow=1;
   return k;
 }
